@@ -171,9 +171,12 @@ def timestamp_encode(ctx, rule):
                 enc[next(iter(sv))] = term
     a = enc.get("WholeSeconds")
     b = enc.get("FractionalSeconds")
-    ok = (a is not None and a[0] == "aggr" and a[2] == "Integer" and is_call(a[3][0][1], "core::convert::Into::into")
-          and a[3][0][1][2] == (("field", ("variant", ("param", 0), "WholeSeconds"), "0"),)
-          and b == ("aggr", "ciborium::value::Value", "Float", (("0", ("field", ("variant", ("param", 0), "FractionalSeconds"), "0")),)))
+    # `Value::Integer(t.into())` / `Value::from(t)` and `Value::Float(f)` / `Value::from(f)`: the wire variant each arm builds and
+    # that it carries the variant's own payload through lossless conversions only (C07 R-5's recognisers)
+    from rules import c07 as _c07
+    ok = (a is not None and b is not None
+          and _c07._variant_of_value_term(a, prog) == "Integer" and _c07._own_payload(a, "WholeSeconds")
+          and _c07._variant_of_value_term(b, prog) == "Float" and _c07._own_payload(b, "FractionalSeconds"))
     ctx.ob(rule, "timestamp-encode", ok and len(enc) == 2 and n_arms == 2, "Timestamp encodes WholeSeconds as an integer of the same value and FractionalSeconds as a float",
            where=e.span, detail={k: show(v)[:80] for k, v in enc.items()})
 
